@@ -1,4 +1,5 @@
 From Coq Require Import List Arith Bool Extraction ExtrOcamlBasic.
 From C12 Require Import Mro Bind.
 Extraction "c12ab.ml" mypy_mro cpython_mro wf_tableb merge pmerge
-  mypy_accepts cpython_bind map_actuals_to_formals shape.
+  mypy_accepts cpython_bind map_actuals_to_formals shape
+  mypy_accepts_s cpython_bind_s map_actuals_to_formals_s plain_like no_L1 no_L2 no_L3 idx.
